@@ -2,6 +2,7 @@ package c19
 
 import (
 	"fmt"
+	"strings"
 
 	"verif/core"
 	jm "verif/ref/jsonmodel"
@@ -72,6 +73,7 @@ var wsIndent = map[string]bool{"absent": true, "1": true, "0": true, "null": tru
 
 // stringifyValue runs one value through all combos (fast path: the engine value is built once).
 func (w *worker) stringifyValue(n *Node, cs []combo, family string, extras bool) {
+	newSpace := strings.HasPrefix(family, "stringify-D3")
 	e := w.env()
 	mv := n.build()
 	gv, err := e.eval(jm.Src(mv))
@@ -142,7 +144,7 @@ func (w *worker) stringifyValue(n *Node, cs []combo, family string, extras bool)
 		}
 	}
 	if produced {
-		w.r.NontrivialN(1)
+		countNT(w.r, 1, newSpace)
 	}
 }
 
@@ -190,10 +192,10 @@ func runStringifyA1(r *core.Run, cache *sigCache, bounds map[string]interface{})
 	a1 := union(full, newContSpace(sh1, full))
 	c1 := combos(replacers, indents, true)
 	if !runSpace(r, cache, "stringify-A1", a1, c1, true) {
-		bounds["stringify A1"] = "cut by deadline"
+		bounds[bkey("stringify A1")] = "cut by deadline"
 		return false
 	}
-	bounds["stringify A1"] = fmt.Sprintf("%d values (all %d leaves; [], {}, [x], [,], {k:x} for %d keys) x %d replacers x %d indents = %d calls, + MarshalJSON + parse(stringify(v))", a1.Size(), len(leavesFull), len(keySingles), len(replacers), len(indents), a1.Size()*int64(len(c1)))
+	bounds[bkey("stringify A1")] = fmt.Sprintf("%d values (all %d leaves; [], {}, [x], [,], {k:x} for %d keys) x %d replacers x %d indents = %d calls, + MarshalJSON + parse(stringify(v))", a1.Size(), len(leavesFull), len(keySingles), len(replacers), len(indents), a1.Size()*int64(len(c1)))
 	return true
 }
 
@@ -207,14 +209,14 @@ func runStringifyA2(r *core.Run, cache *sigCache, bounds map[string]interface{})
 	}
 	a2 := newContSpace(sh2, full)
 	c2 := combos(replacers, pick(indents, nil), false)
-	if r.Quick() {
+	if tierLevel == 0 {
 		c2 = combos(pick(replacers, replacersA2), pick(indents, indentsMidQuick), false)
 	}
 	if !runSpace(r, cache, "stringify-A2", a2, c2, true) {
-		bounds["stringify A2"] = "cut by deadline"
+		bounds[bkey("stringify A2")] = "cut by deadline"
 		return false
 	}
-	bounds["stringify A2"] = fmt.Sprintf("%d values ([x,y] with holes, {k1:x,k2:y} for %d ordered key pairs, x,y over %d leaves) x %d replacer/indent combinations", a2.Size(), len(keyPairs), len(leavesFull), len(c2))
+	bounds[bkey("stringify A2")] = fmt.Sprintf("%d values ([x,y] with holes, {k1:x,k2:y} for %d ordered key pairs, x,y over %d leaves) x %d replacer/indent combinations", a2.Size(), len(keyPairs), len(leavesFull), len(c2))
 	return true
 }
 
@@ -243,14 +245,14 @@ func runStringifyB(r *core.Run, cache *sigCache, bounds map[string]interface{}) 
 	}
 	b := newContSpace(sh, c1)
 	cs := combos(pick(replacers, replacersMid), pick(indents, indentsSmall), true)
-	if r.Thorough() {
+	if tierLevel == 1 {
 		cs = combos(pick(replacers, nil), pick(indents, indentsMid), true)
 	}
 	if !runSpace(r, cache, "stringify-B", b, cs, true) {
-		bounds["stringify B"] = "cut by deadline"
+		bounds[bkey("stringify B")] = "cut by deadline"
 		return false
 	}
-	bounds["stringify B"] = fmt.Sprintf("depth 2: %d values (arrays of 1-2 and objects of 1-2 keys in each order whose children are all %d values of depth<=1 over leaves %v with holes) x %d replacer x indent combinations", b.Size(), len(c1), leavesSmall, len(cs))
+	bounds[bkey("stringify B")] = fmt.Sprintf("depth 2: %d values (arrays of 1-2 and objects of 1-2 keys in each order whose children are all %d values of depth<=1 over leaves %v with holes) x %d replacer x indent combinations", b.Size(), len(c1), leavesSmall, len(cs))
 	// B3: three siblings (every position of an empty / effectively empty container among three) over a reduced child set
 	var c3 listSpace
 	for _, n := range []*Node{leafNode("1"), leafNode("undefined"), {Kind: "arr"}, {Kind: "obj"}, {Kind: "arr", Kids: []*Node{leafNode("1")}}, {Kind: "obj", Keys: []string{"a"}, Kids: []*Node{leafNode("1")}},
@@ -260,10 +262,10 @@ func runStringifyB(r *core.Run, cache *sigCache, bounds map[string]interface{}) 
 	}
 	b3 := newContSpace([]shape{arrShape(3, true), objShape("a", "b", "c"), objShape("b", "1", "a")}, c3)
 	if !runSpace(r, cache, "stringify-B3", b3, cs, false) {
-		bounds["stringify B3"] = "cut by deadline"
+		bounds[bkey("stringify B3")] = "cut by deadline"
 		return false
 	}
-	bounds["stringify B3"] = fmt.Sprintf("three siblings: %d values ([x,y,z], {a,b,c}, {b,1,a} over %d children incl. empty and effectively-empty containers) x %d combinations", b3.Size(), len(c3), len(cs))
+	bounds[bkey("stringify B3")] = fmt.Sprintf("three siblings: %d values ([x,y,z], {a,b,c}, {b,1,a} over %d children incl. empty and effectively-empty containers) x %d combinations", b3.Size(), len(c3), len(cs))
 	return true
 }
 
@@ -275,7 +277,7 @@ func runStringifyDeep(r *core.Run, cache *sigCache, bounds map[string]interface{
 	c1 := append(append(listSpace{}, tiny...), d1...)
 	var sh []shape
 	sh = append(sh, arrShape(1, false), arrShape(2, false), objShape("a"), objShape("a", "1"))
-	if r.Quick() {
+	if tierLevel == 0 {
 		// depth 3 with single-child inner levels only
 		var inner listSpace
 		inner = append(inner, leafNode("1"), &Node{Kind: "arr"}, &Node{Kind: "obj"}, &Node{Kind: "arr", Kids: []*Node{leafNode("1")}}, &Node{Kind: "obj", Keys: []string{"a"}, Kids: []*Node{leafNode("undefined")}})
@@ -283,20 +285,20 @@ func runStringifyDeep(r *core.Run, cache *sigCache, bounds map[string]interface{
 		d3 := newContSpace(sh, c2)
 		cs := combos(pick(replacers, replacersSmall), pick(indents, indentsSmall), true)
 		if !runSpace(r, cache, "stringify-D3", d3, cs, false) {
-			bounds["stringify depth 3"] = "cut by deadline"
+			bounds[bkey("stringify depth 3")] = "cut by deadline"
 			return false
 		}
-		bounds["stringify depth 3"] = fmt.Sprintf("%d values (1-2 children over %d depth-<=2 values built from {1, [], {}, [1], {a:undefined}}) x %d combinations", d3.Size(), len(c2), len(cs))
+		bounds[bkey("stringify depth 3")] = fmt.Sprintf("%d values (1-2 children over %d depth-<=2 values built from {1, [], {}, [1], {a:undefined}}) x %d combinations", d3.Size(), len(c2), len(cs))
 		return true
 	}
 	c2 := append(append(listSpace{}, c1...), materialise(newContSpace(sh, c1))...)
 	d3 := newContSpace(sh, c2)
 	cs := combos(pick(replacers, replacersSmall), pick(indents, indentsSmall), true)
 	if !runSpace(r, cache, "stringify-D3", d3, cs, false) {
-		bounds["stringify depth 3"] = "cut by deadline"
+		bounds[bkey("stringify depth 3")] = "cut by deadline"
 		return false
 	}
-	bounds["stringify depth 3"] = fmt.Sprintf("%d values (1-2 children over all %d values of depth<=2 over leaves %v) x %d combinations", d3.Size(), len(c2), leavesTiny, len(cs))
+	bounds[bkey("stringify depth 3")] = fmt.Sprintf("%d values (1-2 children over all %d values of depth<=2 over leaves %v) x %d combinations", d3.Size(), len(c2), leavesTiny, len(cs))
 	return true
 }
 
